@@ -1,5 +1,7 @@
 package main
 
+import "strings"
+
 // C11 — authorization response parameters arrive intact and cannot inject markup (DESIGN §5 C11).
 
 func init() {
@@ -42,6 +44,11 @@ func init() {
 		{ID: "E8.encoder.space-delimited", Fn: "oidc.NewEncoder", Kind: "call", Pat: "$e.RegisterEncoder(SpaceDelimitedArray{}, _)", Max: 1},
 		{ID: "E8.urlencode.uses-encoder", Fn: "http.URLEncodeParams", P: []string{"resp", "encoder"}, Kind: "ret ok", Pat: "ret($values, nil)", Max: 1,
 			Req: []string{"ok($encoder.Encode($resp, $values))"}},
+	}
+	for _, o := range obs {
+		if strings.HasPrefix(o.ID, "E8.merge.") {
+			sharedObs["C18"] = append(sharedObs["C18"], o) // "a supplied state is appended to the final redirect unchanged": the logout redirect is built by the same merge
+		}
 	}
 	register(&PropSpec{
 		ID: "C11",
